@@ -38,7 +38,7 @@ RULE = ("(a) _fill_in_default_arguments directly: all signatures with <= 4 param
         "Signature.bind accepts plus those missing a required parameter, plus surplus/unknown/duplicate shapes for correspondence "
         "only; (b) generated 4-level class models (method name shared between classes with different signatures, lambda "
         "parameter names re-used across levels) and queries reaching depth 0-3 through method chains, Select/Where/SelectMany, "
-        "dictionary fields and tuple literals, registered functions at every depth; non-trivial = at least one typed call "
+        "dictionary fields and tuple literals, operator lambdas given positionally or by keyword (f= / func= / filter=), registered functions at every depth; non-trivial = at least one typed call "
         "site; distinct by ast.dump of the query")
 
 PNAMES = ["a", "b", "c", "d"]
@@ -242,7 +242,7 @@ class QueryGen:
         cls = self.model.ns["L%d" % level]
         choices = ["m", "val", "fn", "tuple", "binop"]
         if level + 1 < LEVELS:
-            choices += ["nest", "nest", "nest", "dictnest", "tupnest", "where", "many", "count"]
+            choices += ["nest", "nest", "nest", "dictnest", "tupnest", "where", "where", "wherecount", "many", "count"]
         k = r.choice(choices)
         if k == "m":
             return self.typed_call(cls.m, self.info[level]["m"], A(N(v), SHARED), A(N(v), SHARED), v, True)
@@ -270,15 +270,19 @@ class QueryGen:
             cls2 = self.model.ns["L%d" % (level + 1)]
             self.maxdepth = max(self.maxdepth, depth + 1)
             it2 = self.typed_call(cls2.items, self.info[level + 1]["items"], A(N(nv), "items"), A(N(nv), "items"), nv, True)
-            return call(A(it, "SelectMany"), [lam(nv, it2[0])]), call(A(it_x, "SelectMany"), [lam(nv, it2[1])])
+            return tc.op_call(self.r, it, "SelectMany", lam(nv, it2[0])), call(A(it_x, "SelectMany"), [lam(nv, it2[1])])
         inner = self.body(level + 1, depth + 1, nv)
+        if k == "wherecount":
+            cond = gen.cmp(ast.Gt, inner[0], C(0)), gen.cmp(ast.Gt, inner[1], C(0))
+            return (call(A(tc.op_call(self.r, it, "Where", lam(nv, cond[0]), 0.6), "Count"), []),
+                    call(A(call(A(it_x, "Where"), [lam(nv, cond[1])]), "Count"), []))
         if k == "where":
             cond = gen.cmp(ast.Gt, inner[0], C(0)), gen.cmp(ast.Gt, inner[1], C(0))
-            it, it_x = call(A(it, "Where"), [lam(nv, cond[0])]), call(A(it_x, "Where"), [lam(nv, cond[1])])
+            it, it_x = tc.op_call(self.r, it, "Where", lam(nv, cond[0]), 0.5), call(A(it_x, "Where"), [lam(nv, cond[1])])
             nv2 = self.var(depth + 1)
             inner = self.body(level + 1, depth + 1, nv2)
-            return call(A(it, "Select"), [lam(nv2, inner[0])]), call(A(it_x, "Select"), [lam(nv2, inner[1])])
-        return call(A(it, "Select"), [lam(nv, inner[0])]), call(A(it_x, "Select"), [lam(nv, inner[1])])
+            return tc.op_call(self.r, it, "Select", lam(nv2, inner[0])), call(A(it_x, "Select"), [lam(nv2, inner[1])])
+        return tc.op_call(self.r, it, "Select", lam(nv, inner[0])), call(A(it_x, "Select"), [lam(nv, inner[1])])
 
 
 def whole_queries(ctx):
@@ -344,6 +348,15 @@ CORPUS = [  # witnesses of F09, F10, F20 over the hand-written model
     ("Event", "lambda e: e.Jets().Select(lambda e: e.pt())", "lambda e: e.Jets('default', True).Select(lambda e: e.pt(1.0, 'GeV', 7))"),
     ("Event", "lambda e: myf(c=5, a=e.met())", "lambda e: myf(e.met(), 10.0, 5)"),
     ("Event", "lambda e: g2(1)", None),
+    ("Event", "lambda e: e.Jets().Where(filter=lambda j: j.pt(unit='MeV') > 5)",
+     "lambda e: e.Jets('default', True).Where(lambda j: j.pt(1.0, 'MeV', 7) > 5)"),
+    ("Event", "lambda e: e.Jets().Where(filter=lambda j: j.two(1) > 5)", None),
+    ("Event", "lambda e: e.Jets().Where(filter=lambda j: j.pt() > 5).Select(f=lambda j: j.two(b=2, a=1))",
+     "lambda e: e.Jets('default', True).Where(lambda j: j.pt(1.0, 'GeV', 7) > 5).Select(lambda j: j.two(1, 2))"),
+    ("Event", "lambda e: e.Jets().SelectMany(func=lambda j: j.trks())",
+     "lambda e: e.Jets('default', True).SelectMany(lambda j: j.trks('all'))"),
+    ("Event", "lambda e: e.Jets().Select(lambda j: j.trks().Where(filter=lambda t: t.pt() > 1).Count())",
+     "lambda e: e.Jets('default', True).Select(lambda j: j.trks('all').Where(lambda t: t.pt_new(1) > 1).Count())"),
     ("Event", "lambda e: e.Jets().Where(lambda j: j.pt(unit='x') > 1).Select(lambda j: j.two(b=2, a=1))",
      "lambda e: e.Jets('default', True).Where(lambda j: j.pt(1.0, 'x', 7) > 1).Select(lambda j: j.two(1, 2))"),
 ]
